@@ -5,7 +5,11 @@ Floats are IEEE bit patterns. Commands:
   seg  x1 y1 x2 y2 x y          → `ok d xp yp`            | `err zerodiv`
   poly <X list> <Y list> x y    → `ok d xp yp i`          | `err zerodiv` | `err unbound`
   map  <X list> <Y list> x y    → `ok xp yp d i`          (mapOnTrack with a coordinate)
-  mapt <X list> <Y list> <QX list> <QY list> → `ok xp,yp,d,i;…` (mapOnTrack with a track) -/
+  mapt <X list> <Y list> <QX list> <QY list> → `ok xp,yp,d,i;…` (mapOnTrack with a track)
+  segg np x1 y1 x2 y2 x y       → as `seg`; `np` = `1` when the segment is a numpy array (`-c / b` never raises)
+  polyxy np <X list> <Y list> x y → as `poly`, the two sequences as given (any lengths) | `err index`
+  map3 <X> <Y> <Z> x y z        → `ok xp yp zp d i`       (mapOnTrack with a 3D coordinate on a 3D track)
+  mapt3 <X> <Y> <Z> <QX> <QY> <QZ> → `ok xp,yp,zp,d,i;…`  (mapOnTrack with a 3D track of queries) -/
 namespace TV.Drv.C20
 open TV.Proj TV.Drv
 
@@ -21,6 +25,19 @@ def zipPts? (xs ys : List Float) : Option (List (Float × Float)) :=
 
 def showRow (r : (Float × Float) × Float × Nat) : String :=
   s!"{showFloat r.1.1},{showFloat r.1.2},{showFloat r.2.1},{r.2.2}"
+
+def showErrX : ErrX → String
+  | .base e => showErr e
+  | .index => "err index"
+
+def bool? (s : String) : Option Bool :=
+  if s == "1" then some true else if s == "0" then some false else none
+
+def zip3? (xs ys zs : List Float) : Option (List (Float × Float × Float)) :=
+  if xs.length == ys.length && ys.length == zs.length then some (xs.zip (ys.zip zs)) else none
+
+def showRow3 (sep : String) (r : (Float × Float × Float) × Float × Nat) : String :=
+  sep.intercalate [showFloat r.1.1, showFloat r.1.2.1, showFloat r.1.2.2, showFloat r.2.1, toString r.2.2]
 
 def handle (cmd : String) (args : List String) : String :=
   match cmd, args with
@@ -61,5 +78,41 @@ def handle (cmd : String) (args : List String) : String :=
         | .ok rs => "ok " ++ joinWith ";" (rs.map showRow)
       | _, _ => "bad-request"
     | _, _, _, _ => "bad-request"
+  | "segg", [np, a, b, c, d, e, f] =>
+    match bool? np, [a, b, c, d, e, f].mapM float? with
+    | some np, some [x1, y1, x2, y2, x, y] =>
+      match projSegmentG np Float.sqrt x1 y1 x2 y2 x y with
+      | .error e => showErr e
+      | .ok r => s!"ok {showFloat r.1} {showFloat r.2.1} {showFloat r.2.2}"
+    | _, _ => "bad-request"
+  | "polyxy", [np, xs, ys, qx, qy] =>
+    match bool? np, floatList? xs, floatList? ys, float? qx, float? qy with
+    | some np, some xs, some ys, some x, some y =>
+      match projPolyligneXY np Float.sqrt eps xs ys x y with
+      | .error e => showErrX e
+      | .ok r => s!"ok {showFloat r.1} {showFloat r.2.1} {showFloat r.2.2.1} {r.2.2.2}"
+    | _, _, _, _, _ => "bad-request"
+  | "map3", [xs, ys, zs, qx, qy, qz] =>
+    match floatList? xs, floatList? ys, floatList? zs, [qx, qy, qz].mapM float? with
+    | some xs, some ys, some zs, some [x, y, z] =>
+      match zip3? xs ys zs with
+      | none => "bad-request"
+      | some pts =>
+        match mapOnTrack3 Float.sqrt eps pts (.inl (x, y, z)) with
+        | .error e => showErrX e
+        | .ok (.inl r) => "ok " ++ showRow3 " " r
+        | .ok (.inr _) => "bad-request"
+    | _, _, _, _ => "bad-request"
+  | "mapt3", [xs, ys, zs, qxs, qys, qzs] =>
+    match [xs, ys, zs, qxs, qys, qzs].mapM floatList? with
+    | some [xs, ys, zs, qxs, qys, qzs] =>
+      match zip3? xs ys zs, zip3? qxs qys qzs with
+      | some pts, some qs =>
+        match mapOnTrack3 Float.sqrt eps pts (.inr qs) with
+        | .error e => showErrX e
+        | .ok (.inr rs) => "ok " ++ joinWith ";" (rs.map (showRow3 ","))
+        | .ok (.inl _) => "bad-request"
+      | _, _ => "bad-request"
+    | _ => "bad-request"
   | _, _ => "bad-request"
 end TV.Drv.C20
